@@ -384,6 +384,21 @@ func (w *World) start(n *node, applied uint64, first bool) {
 	if n.confRegressed {
 		w.Stats["restart-conf-regressed"]++
 	}
+	if n.cfg.MaxInflightBytes != 0 && n.cfg.MaxInflightBytes < n.cfg.MaxSizePerMsg {
+		// Config.validate documents "max inflight bytes must be >= max message size".
+		// Probe with a throw-away node: if the library refuses the pair, the operator
+		// corrects it (budget = message size, or none if messages are unlimited); if it
+		// accepts it, the configured budget is what C16 holds the leader to.
+		if configRefused(n.cfg.MaxSizePerMsg, n.cfg.MaxInflightBytes) {
+			w.Stats["config-refused-inflight-bytes-below-msg-size"]++
+			n.cfg.MaxInflightBytes = n.cfg.MaxSizePerMsg
+			if n.cfg.MaxSizePerMsg == ^uint64(0) {
+				n.cfg.MaxInflightBytes = 0
+			}
+		} else {
+			w.Stats["config-accepted-inflight-bytes-below-msg-size"]++
+		}
+	}
 	c := &raft.Config{ID: n.id, ElectionTick: w.Cfg.ElectionTick, HeartbeatTick: w.Cfg.HeartbeatTick,
 		Storage:       csStorage{n.ms, cs, n, w},
 		MaxSizePerMsg: n.cfg.MaxSizePerMsg, MaxCommittedSizePerReady: n.cfg.MaxCommittedSize,
@@ -590,4 +605,18 @@ func (w *World) describe() string {
 	}
 	fmt.Fprintf(&sb, "\n   durable=%v legacy=%v elect=%d profile=%s", w.Cfg.Durable, w.Cfg.Legacy, w.Cfg.ElectionTick, w.Cfg.Prof.Name)
 	return sb.String()
+}
+
+// configRefused reports whether the library refuses a configuration with the given
+// message-size limit and inflight byte budget (NewRawNode panics with the validation
+// error, which is the documented way it reports an invalid Config).
+func configRefused(maxSize, maxBytes uint64) (refused bool) {
+	defer func() {
+		if e := recover(); e != nil {
+			refused = true
+		}
+	}()
+	_, err := raft.NewRawNode(&raft.Config{ID: 1, ElectionTick: 10, HeartbeatTick: 1, Storage: raft.NewMemoryStorage(),
+		MaxSizePerMsg: maxSize, MaxInflightMsgs: 1, MaxInflightBytes: maxBytes, Logger: &raft.DefaultLogger{Logger: log.New(io.Discard, "", 0)}})
+	return err != nil
 }
